@@ -54,7 +54,28 @@ def data_digest(data):
 
 def build_population(spec, date, params):
     rng = rng_for(spec["seed"], "C14pop", spec["n_hh"])
-    return popgen.population(rng, date, n_hh=spec["n_hh"], params=params, corner=spec.get("corner"))
+    df = popgen.population(rng, date, n_hh=spec["n_hh"], params=params, corner=spec.get("corner"))
+    v = spec.get("variant")
+    # near-identical populations: most arrays byte-identical to the base population, one aspect changed
+    # (state keyed on part of the inputs would hand back stale results)
+    if v == "move_children":
+        kids = np.where((df["p_id_elternteil_1"].to_numpy() >= 0) & (df["alter"].to_numpy() < 25)
+                        & (df["p_id_einstandspartner"].to_numpy() < 0))[0][::2]
+        if len(kids):
+            df.loc[kids, "hh_id"] = int(df["hh_id"].max()) + 1 + np.arange(len(kids))
+            df["eigenbedarf_gedeckt"] = df["eigenbedarf_gedeckt"] & ~df.index.isin(kids)
+            df["alleinerz"] = False
+    elif v == "permute_p_ids":
+        ids = df["p_id"].tolist()
+        df = popgen.relabel(df, dict(zip(ids, ids[::-1])), None)
+    elif v == "reverse_rows":
+        df = df.iloc[::-1].reset_index(drop=True)
+    elif v == "scale_wages":
+        df["bruttolohn_m"] = np.round(df["bruttolohn_m"] * 1.1, 2)
+    elif v == "swap_households":
+        hh = sorted(df["hh_id"].unique().tolist())
+        df = popgen.relabel(df, None, dict(zip(hh, hh[::-1])))
+    return df
 
 
 def apply_reform(params, functions, reform):
